@@ -68,10 +68,12 @@ structure PollEntry where
 inductive Ev
   | op (o : Op) (r : Res)
   | runBegin
+  | spinBegin               -- `events_spin(&done)` is entered
   | cb (id : Nat)
   | cbEnd (rc : Int)
   | poll (timeout : Int) (adv : Nat) (fds : List PollEntry) (out : PollOutcome)
   | ret (rc : Int)
+  | spinRet (rc : Int)      -- `events_spin` returns `rc`; the caller clears its `done` variable afterwards
   | fault                   -- the model made an out-of-bounds access / ran out of fuel (never printed by the C)
   deriving DecidableEq, Repr, Inhabited
 
@@ -182,6 +184,8 @@ structure M where
   startIntr : Bool := false        -- the call started with an interrupt request already pending
   mustFire : Bool := false         -- a blocking poll woke for a registered descriptor / expired timer
   stop : Option Int := none        -- dispatching has to stop; the call must return this value
+  spin : Bool := false             -- the call in progress is `events_spin`
+  done : Bool := false             -- the caller's `done` variable is non-zero
   deriving Repr
 
 /-- the property's "rounded up to a millisecond": the least whole number of milliseconds that is not
@@ -271,12 +275,19 @@ def step (m : M) : Ev → Except String M
       pure { m with tms := m.tms.map (fun t => if t.id == id then { t with deadline := m.clock + t.usec } else t) }
   | .op .interrupt _ => pure { m with intr := true }
   | .op (.clock us) _ => pure { m with clock := m.clock + us }
+  | .op .done _ => pure { m with done := true }
   | .op _ _ => pure m
   | .runBegin =>
       pure { m with inRun := true, fired := 0, polled := false, looked := false, startRunnable := runnable m,
-                    startIntr := m.intr, mustFire := false, stop := none }
+                    startIntr := m.intr, mustFire := false, stop := none, spin := false }
+  | .spinBegin =>
+      -- `done` already set: nothing at all may run (no callback, no poll), and the call returns 0
+      pure { m with inRun := true, fired := 0, polled := false, looked := false, startRunnable := runnable m,
+                    startIntr := m.intr, mustFire := false, stop := if m.done then some 0 else none, spin := true }
   | .poll timeout adv fds out => do
       if m.stop.isSome then throw "poll issued after dispatching had to stop"
+      if m.spin && m.done && timeout ≠ 0 then
+        throw s!"events_spin: poll may block (timeout {timeout}) although done is set"
       checkPoll m timeout
       match out with
       | .ok =>
@@ -323,6 +334,14 @@ def step (m : M) : Ev → Except String M
             if m.polled && m.nets.any (·.ready) then throw "returned although the latest poll reported a registered descriptor ready"
             if m.polled && expired m then throw "returned after polling although a timer has expired"
       pure { m with inRun := false, intr := false, stop := none, mustFire := false }
+  | .spinRet rc => do
+      match m.stop with
+      | some c => if rc ≠ c then throw s!"events_spin returned {rc}; the callback status / interrupt / done demands {c}"
+      | none =>
+          if rc ≠ 0 then throw s!"events_spin returned {rc} although no callback returned a non-zero status"
+          if !m.done && !m.intr then throw "events_spin returned 0 although done is not set and no interrupt was requested"
+      -- the interrupt request is consumed; the caller resets its `done` variable
+      pure { m with inRun := false, intr := false, stop := none, mustFire := false, spin := false, done := false }
   | .fault => pure m
 
 def run (m : M) : Trace → Except String M
